@@ -1,4 +1,4 @@
-import Wip.ModsActions
+import Cutadapt.Proofs.ModsActions
 /-! Single modifiers as relations between input and output read; the adapter stage with and without `--revcomp`;
     the whole modifier list. Core Lean only. -/
 namespace Cutadapt
